@@ -1,5 +1,427 @@
-//! Conformance harness for property C01, see /verif/DESIGN.md.
+//! Conformance harness for property C01 (word expansion), see /verif/DESIGN.md.
+//!
+//! spec -> impl:  `replay` / `read-replay` take the vectors TLC enumerated from
+//!                spec/Expand.tla (word AST, state, allowed outcomes), run them in
+//!                the real shell and report every disagreement;
+//! impl -> spec:  `random` / `read-random` record what the real shell does on
+//!                random larger inputs; spec/Trace_Expand.tla judges the records.
+mod ast;
+mod run;
+
+use ast::{Ctx, Render};
+use rand::rngs::StdRng;
+use rand::{Rng, SeedableRng};
+use serde_json::{Value, json};
+use std::collections::BTreeMap;
+use std::io::{BufRead, Write};
+use std::sync::Mutex;
+use std::sync::atomic::{AtomicUsize, Ordering};
+use yvcommon::util;
+
+fn agrees(obs: &Value, out: &Value) -> bool {
+    match out["k"].as_str().unwrap() {
+        "ok" => obs["k"] == "ok" && obs["f"] == out["f"] && obs["x"] == out["x"] && obs["y"] == out["y"],
+        kind => {
+            obs["k"] == "err"
+                && obs["status"].as_i64().unwrap_or(0) != 0
+                && (kind != "vacant"
+                    || out["msg"].as_str().unwrap().is_empty()
+                    || obs["stderr"].as_str().unwrap().contains(out["msg"].as_str().unwrap()))
+        }
+    }
+}
+
+struct Summary {
+    cases: usize,
+    ok: usize,
+    errors: usize,
+    skipped: usize,
+    ambiguous: usize,
+    fields: usize,
+    mismatches: usize,
+    samples: Vec<Value>,
+}
+
+fn write_lines(args: &[String], lines: Vec<String>) {
+    let mut w = util::open_out(args);
+    for l in lines {
+        writeln!(w, "{l}").unwrap();
+    }
+    w.flush().unwrap();
+}
+
+fn threads(args: &[String]) -> usize {
+    util::opt_usize(args, "--threads", 8)
+}
+
+/// spec -> impl for words.
+fn replay(args: &[String]) -> i32 {
+    let render = Render { multibyte_e: true, raw_params: true };
+    let render_braced = Render { multibyte_e: true, raw_params: false };
+    let input = util::open_in(args);
+    let chunk = util::opt_usize(args, "--chunk", 200);
+    // group by state
+    let mut groups: BTreeMap<String, (Value, Vec<(Vec<Value>, Value)>)> = BTreeMap::new();
+    let mut skipped = 0usize;
+    for line in input.lines() {
+        let line = line.expect("read");
+        if line.trim().is_empty() {
+            continue;
+        }
+        let v: Value = serde_json::from_str(&line).expect("json");
+        let outs = v["out"].as_array().unwrap();
+        if outs[0]["k"] == "skip" {
+            skipped += 1;
+            continue;
+        }
+        let key = v["st"].to_string();
+        let e = groups.entry(key).or_insert_with(|| (v["st"].clone(), vec![]));
+        e.1.push((v["w"].as_array().unwrap().clone(), v["out"].clone()));
+    }
+    let mut jobs: Vec<(&Value, &[(Vec<Value>, Value)])> = vec![];
+    for (_k, (st, cases)) in groups.iter() {
+        for c in cases.chunks(chunk) {
+            jobs.push((st, c));
+        }
+    }
+    let next = AtomicUsize::new(0);
+    let out: Mutex<Vec<String>> = Mutex::new(vec![]);
+    let sum = Mutex::new(Summary { cases: 0, ok: 0, errors: 0, skipped, ambiguous: 0, fields: 0, mismatches: 0, samples: vec![] });
+    let failed: Mutex<Option<String>> = Mutex::new(None);
+    std::thread::scope(|s| {
+        for _ in 0..threads(args) {
+            s.spawn(|| {
+                loop {
+                    let j = next.fetch_add(1, Ordering::SeqCst);
+                    if j >= jobs.len() || failed.lock().unwrap().is_some() {
+                        break;
+                    }
+                    let (st, cases) = jobs[j];
+                    // alternate between `$x` and `${x}` renderings
+                    let r = if j % 2 == 0 { &render } else { &render_braced };
+                    let mut done = 0;
+                    let mut obs_all = vec![];
+                    while done < cases.len() {
+                        let words: Vec<&[Value]> = cases[done..].iter().map(|c| c.0.as_slice()).collect();
+                        match run::run_words(r, st, &words) {
+                            Ok(o) => {
+                                if o.is_empty() {
+                                    *failed.lock().unwrap() = Some("no progress".into());
+                                    return;
+                                }
+                                done += o.len();
+                                obs_all.extend(o);
+                            }
+                            Err(e) => {
+                                *failed.lock().unwrap() = Some(e);
+                                return;
+                            }
+                        }
+                    }
+                    let mut local = vec![];
+                    let (mut ok, mut errs, mut amb, mut fields) = (0, 0, 0, 0);
+                    let mut sample = None;
+                    for (c, o) in cases.iter().zip(obs_all.iter()) {
+                        let outs = c.1.as_array().unwrap();
+                        if outs.len() > 1 {
+                            amb += 1;
+                        }
+                        if outs[0]["k"] == "ok" {
+                            ok += 1;
+                            fields += outs[0]["f"].as_array().unwrap().len();
+                        } else {
+                            errs += 1;
+                        }
+                        if !outs.iter().any(|x| agrees(&o.obs, x)) {
+                            local.push(json!({"w": c.0, "st": st, "text": o.text, "out": c.1, "obs": o.obs}));
+                        } else if sample.is_none() && (j % 97 == 0) {
+                            sample = Some(json!({"text": o.text, "st": st, "out": c.1, "obs": {"k": o.obs["k"], "f": o.obs["f"]}}));
+                        }
+                    }
+                    let mut s = sum.lock().unwrap();
+                    s.cases += cases.len();
+                    s.ok += ok;
+                    s.errors += errs;
+                    s.ambiguous += amb;
+                    s.fields += fields;
+                    s.mismatches += local.len();
+                    if let Some(x) = sample {
+                        if s.samples.len() < 6 {
+                            s.samples.push(x);
+                        }
+                    }
+                    drop(s);
+                    if !local.is_empty() {
+                        let mut w = out.lock().unwrap();
+                        for m in local {
+                            w.push(m.to_string());
+                        }
+                    }
+                }
+            });
+        }
+    });
+    if let Some(e) = failed.into_inner().unwrap() {
+        eprintln!("yv-c01 replay: tool error: {e}");
+        return 2;
+    }
+    write_lines(args, out.into_inner().unwrap());
+    let s = sum.into_inner().unwrap();
+    println!(
+        "{}",
+        json!({"cases": s.cases, "ok": s.ok, "errors": s.errors, "skipped": s.skipped, "ambiguous": s.ambiguous,
+               "fields": s.fields, "mismatches": s.mismatches, "samples": s.samples, "runs": jobs.len()})
+    );
+    0
+}
+
+fn random_state(rng: &mut StdRng) -> Value {
+    let val = |rng: &mut StdRng| -> Value {
+        match rng.gen_range(0..10) {
+            0 | 1 => json!({"set": false, "v": ""}),
+            2 => json!({"set": true, "v": ""}),
+            _ => json!({"set": true, "v": ast::random_value(rng, 8)}),
+        }
+    };
+    let npos = [0, 0, 1, 1, 2, 2, 3][rng.gen_range(0..7)];
+    let pos: Vec<Value> = (0..npos)
+        .map(|_| if rng.gen_range(0..5) == 0 { json!("") } else { json!(ast::random_value(rng, 6)) })
+        .collect();
+    let ifs = match rng.gen_range(0..10) {
+        0 => json!({"set": false, "v": ""}),
+        1 => json!({"set": true, "v": ""}),
+        2 => json!({"set": true, "v": " \t\n"}),
+        3 => json!({"set": true, "v": " "}),
+        4 => json!({"set": true, "v": ":"}),
+        5 => json!({"set": true, "v": " :"}),
+        _ => {
+            let n = rng.gen_range(1..=3);
+            let pool = ["a", " ", ":", "\t", "\n", "-", "*", "b", "\u{e9}", "\\", "?"];
+            let v: String = (0..n).map(|_| pool[rng.gen_range(0..pool.len())]).collect();
+            json!({"set": true, "v": v})
+        }
+    };
+    json!({"x": val(rng), "y": val(rng), "pos": pos, "ifs": ifs,
+           "nounset": rng.gen_range(0..4) == 0, "st": if rng.gen_range(0..4) == 0 { "3" } else { "0" }})
+}
+
+/// impl -> spec for words: records {w, st, obs}.
+fn random(args: &[String]) -> i32 {
+    let n = util::opt_usize(args, "--n", 1000);
+    let per_state = util::opt_usize(args, "--per-state", 40);
+    let max_units = util::opt_usize(args, "--units", 12);
+    let seed = util::seed();
+    let nstates = n.div_ceil(per_state);
+    let next = AtomicUsize::new(0);
+    let out: Mutex<Vec<String>> = Mutex::new(vec![]);
+    let failed: Mutex<Option<String>> = Mutex::new(None);
+    let total = AtomicUsize::new(0);
+    std::thread::scope(|s| {
+        for _ in 0..threads(args) {
+            s.spawn(|| {
+                loop {
+                    let j = next.fetch_add(1, Ordering::SeqCst);
+                    if j >= nstates || failed.lock().unwrap().is_some() {
+                        break;
+                    }
+                    let mut rng = StdRng::seed_from_u64(seed.wrapping_mul(1_000_003).wrapping_add(j as u64));
+                    let st = random_state(&mut rng);
+                    let render = Render { multibyte_e: false, raw_params: j % 2 == 0 };
+                    let words: Vec<Vec<Value>> = (0..per_state)
+                        .map(|_| {
+                            let mut budget = rng.gen_range(1..=max_units);
+                            ast::random_units(&mut rng, Ctx::Top, &mut budget, 0, 1)
+                        })
+                        .collect();
+                    let mut done = 0;
+                    let mut recs = vec![];
+                    while done < words.len() {
+                        let ws: Vec<&[Value]> = words[done..].iter().map(|w| w.as_slice()).collect();
+                        match run::run_words(&render, &st, &ws) {
+                            Ok(o) if !o.is_empty() => {
+                                for (k, ob) in o.iter().enumerate() {
+                                    recs.push(json!({"kind": "word", "w": words[done + k], "st": st, "text": ob.text, "obs": ob.obs}));
+                                }
+                                done += o.len();
+                            }
+                            Ok(_) => {
+                                *failed.lock().unwrap() = Some("no progress".into());
+                                return;
+                            }
+                            Err(e) => {
+                                *failed.lock().unwrap() = Some(e);
+                                return;
+                            }
+                        }
+                    }
+                    total.fetch_add(recs.len(), Ordering::SeqCst);
+                    let mut w = out.lock().unwrap();
+                    for r in recs {
+                        w.push(r.to_string());
+                    }
+                }
+            });
+        }
+    });
+    if let Some(e) = failed.into_inner().unwrap() {
+        eprintln!("yv-c01 random: tool error: {e}");
+        return 2;
+    }
+    write_lines(args, out.into_inner().unwrap());
+    println!("{}", json!({"records": total.load(Ordering::SeqCst)}));
+    0
+}
+
+/// spec -> impl for `read`: input lines {line, n, ifs, out: [[..], ..]}.
+fn read_replay(args: &[String]) -> i32 {
+    let render = Render { multibyte_e: true, raw_params: true };
+    let input = util::open_in(args);
+    let mut groups: BTreeMap<String, (Value, Vec<Value>)> = BTreeMap::new();
+    for line in input.lines() {
+        let line = line.expect("read");
+        if line.trim().is_empty() {
+            continue;
+        }
+        let v: Value = serde_json::from_str(&line).expect("json");
+        let key = v["ifs"].to_string();
+        groups.entry(key).or_insert_with(|| (v["ifs"].clone(), vec![])).1.push(v);
+    }
+    let mut out = util::open_out(args);
+    let (mut cases, mut mism, mut amb) = (0usize, 0usize, 0usize);
+    let mut samples = vec![];
+    for (_k, (ifs, recs)) in groups.iter() {
+        for chunk in recs.chunks(300) {
+            let cs: Vec<(&[Value], usize)> =
+                chunk.iter().map(|r| (r["line"].as_array().unwrap().as_slice(), r["n"].as_u64().unwrap() as usize)).collect();
+            let obs = match run::run_reads(&render, ifs, &cs) {
+                Ok(o) => o,
+                Err(e) => {
+                    eprintln!("yv-c01 read-replay: tool error: {e}");
+                    return 2;
+                }
+            };
+            for (r, o) in chunk.iter().zip(obs.iter()) {
+                cases += 1;
+                let allowed = r["out"].as_array().unwrap();
+                if allowed.len() > 1 {
+                    amb += 1;
+                }
+                let good = o["status"] == 0 && o["extra"] == false && allowed.iter().any(|a| a == &o["vals"]);
+                if !good {
+                    mism += 1;
+                    writeln!(out, "{}", json!({"line": r["line"], "n": r["n"], "ifs": ifs, "out": r["out"], "obs": o})).unwrap();
+                } else if samples.len() < 3 && cases % 1013 == 7 {
+                    samples.push(json!({"line": r["line"], "n": r["n"], "ifs": ifs, "obs": o["vals"]}));
+                }
+            }
+        }
+    }
+    out.flush().unwrap();
+    println!("{}", json!({"cases": cases, "mismatches": mism, "ambiguous": amb, "samples": samples}));
+    0
+}
+
+/// impl -> spec for `read`: records {kind: "read", line, n, ifs, obs}.
+fn read_random(args: &[String]) -> i32 {
+    let n = util::opt_usize(args, "--n", 500);
+    let render = Render { multibyte_e: false, raw_params: true };
+    let mut rng = StdRng::seed_from_u64(util::seed().wrapping_mul(7_919).wrapping_add(17));
+    let mut out = util::open_out(args);
+    let plain = ["a", "b", " ", " ", "\t", ":", ":", "-", "\u{e9}", "*", "'", "\""];
+    let esc = [" ", ":", "\\", "a", "-", "\t"];
+    let mut total = 0;
+    let mut left = n;
+    while left > 0 {
+        let st = random_state(&mut rng);
+        let ifs = st["ifs"].clone();
+        let m = left.min(50);
+        left -= m;
+        let mut lines = vec![];
+        for _ in 0..m {
+            let len = rng.gen_range(0..=10);
+            let line: Vec<Value> = (0..len)
+                .map(|_| {
+                    if rng.gen_range(0..6) == 0 {
+                        json!({"c": esc[rng.gen_range(0..esc.len())], "esc": true})
+                    } else {
+                        json!({"c": plain[rng.gen_range(0..plain.len())], "esc": false})
+                    }
+                })
+                .collect();
+            lines.push((line, rng.gen_range(1..=4usize)));
+        }
+        let cs: Vec<(&[Value], usize)> = lines.iter().map(|(l, n)| (l.as_slice(), *n)).collect();
+        let obs = match run::run_reads(&render, &ifs, &cs) {
+            Ok(o) => o,
+            Err(e) => {
+                eprintln!("yv-c01 read-random: tool error: {e}");
+                return 2;
+            }
+        };
+        for ((line, n), o) in lines.iter().zip(obs.iter()) {
+            writeln!(out, "{}", json!({"kind": "read", "line": line, "n": n, "ifs": ifs, "obs": o})).unwrap();
+            total += 1;
+        }
+    }
+    out.flush().unwrap();
+    println!("{}", json!({"records": total}));
+    0
+}
+
+/// Re-executes one record {w, st} (replay of a violation) and prints the observation.
+fn one(args: &[String]) -> i32 {
+    let input = util::open_in(args);
+    let mut out = util::open_out(args);
+    for line in input.lines() {
+        let line = line.expect("read");
+        if line.trim().is_empty() {
+            continue;
+        }
+        let v: Value = serde_json::from_str(&line).expect("json");
+        let mb = v["mb"].as_bool().unwrap_or(false);
+        let render = Render { multibyte_e: mb, raw_params: true };
+        if v["kind"] == "read" || v.get("line").is_some() {
+            let cs = [(v["line"].as_array().unwrap().as_slice(), v["n"].as_u64().unwrap() as usize)];
+            match run::run_reads(&render, &v["ifs"], &cs) {
+                Ok(o) => writeln!(out, "{}", json!({"kind": "read", "line": v["line"], "n": v["n"], "ifs": v["ifs"], "obs": o[0]})).unwrap(),
+                Err(e) => {
+                    eprintln!("tool error: {e}");
+                    return 2;
+                }
+            }
+        } else {
+            let w = v["w"].as_array().unwrap();
+            match run::run_words(&render, &v["st"], &[w.as_slice()]) {
+                Ok(o) => writeln!(out, "{}", json!({"kind": "word", "w": v["w"], "st": v["st"], "text": o[0].text, "obs": o[0].obs})).unwrap(),
+                Err(e) => {
+                    eprintln!("tool error: {e}");
+                    return 2;
+                }
+            }
+        }
+    }
+    out.flush().unwrap();
+    0
+}
+
 fn main() {
-    eprintln!("yv-c01: not implemented yet");
-    std::process::exit(2);
+    util::quiet_panics();
+    let args: Vec<String> = std::env::args().collect();
+    if args.len() < 2 {
+        eprintln!("usage: yv-c01 <replay|random|read-replay|read-random|one> [--in F] [--out F] ...");
+        std::process::exit(2);
+    }
+    let rest = &args[2..];
+    let code = match args[1].as_str() {
+        "replay" => replay(rest),
+        "random" => random(rest),
+        "read-replay" => read_replay(rest),
+        "read-random" => read_random(rest),
+        "one" => one(rest),
+        other => {
+            eprintln!("unknown subcommand {other}");
+            2
+        }
+    };
+    std::process::exit(code);
 }
